@@ -70,7 +70,7 @@ Print Assumptions C09_handler_cap_example.
 (* ---- progress (all framings; repaired code: dc85988 stale `_paused`, 497a2a6 re-wait, 72e5a25 parser kept at close) ----
    For every codec whose decompress_sync leaves data_available false after an output-less call (ZLibDecompressor:
    `_last_empty`), read_bufsize >= 1, Content-Length / chunked / until-EOF framing, with or without transport flow
-   control, every history and fuel: while the connection is open and no payload error is set, an empty buffer
+   control, every history and fuel: while the connection is open, no payload error is set and EOF has not been fed, an empty buffer
    implies that the parser holds no unprocessed input and that reading is not paused - the consumer waits for
    the network, never for a resume that nobody will issue.  (Before dc85988 this was refuted for chunked bodies;
    the refuting history is now the regression example below.) *)
@@ -81,7 +81,7 @@ Theorem C09_progress :
     forall fuel c t len enc evs (y : sys H) os,
       1 <= c_limit c ->
       run H hnew hstep havail heof hflush fuel (init H hnew c t len enc) evs = (y, os) ->
-      rexn (re (core y)) = None -> connected (pr (core y)) = true -> buf (re (core y)) = [] ->
+      rexn (re (core y)) = None -> reof (re (core y)) = false -> connected (pr (core y)) = true -> buf (re (core y)) = [] ->
       has_more (pr (core y)) = false /\ rpaused (pr (core y)) = false /\ tpaused (pr (core y)) = false.
 Proof. exact progress_all. Qed.
 Print Assumptions C09_progress.
@@ -109,7 +109,7 @@ Print Assumptions C09_reaches_eof.
 Theorem C09_progress_instance :
   forall fuel c t len enc evs (y : ic_sys) os,
     1 <= c_limit c -> ic_run fuel (ic_init c t len enc) evs = (y, os) ->
-    rexn (re (core y)) = None -> connected (pr (core y)) = true -> buf (re (core y)) = [] ->
+    rexn (re (core y)) = None -> reof (re (core y)) = false -> connected (pr (core y)) = true -> buf (re (core y)) = [] ->
     has_more (pr (core y)) = false /\ rpaused (pr (core y)) = false /\ tpaused (pr (core y)) = false.
 Proof. exact progress_idcap. Qed.
 Print Assumptions C09_progress_instance.
